@@ -354,3 +354,11 @@ mod test {
         });
     }
 }
+
+// Verification hooks (add-only): inert unless built by Kani or with `--cfg indicatif_verif`.
+#[cfg(kani)]
+#[path = "/verif/kani/iter.rs"]
+mod verif_kani;
+#[cfg(indicatif_verif)]
+#[path = "/verif/hooks/iter.rs"]
+pub mod verif_hooks;
